@@ -306,9 +306,22 @@ class Evaluator:
         f = e.func
         if isinstance(f, ast.Attribute) and isinstance(f.value, ast.Name) and f.value.id == "dict" and f.attr == "fromkeys":
             return dict.fromkeys(*self._elts(e.args))
+        if isinstance(f, ast.Attribute) and isinstance(f.value, ast.Name) and f.value.id == "re" and f.attr == "compile" and "re" not in self.env:
+            import re as _re
+
+            args = self._elts(e.args)
+            if args and isinstance(args[0], str) and len(args) == 1 and not e.keywords:
+                try:
+                    return _re.compile(args[0])  # a pure value: the pattern object of a constant string
+                except _re.error as ex:
+                    raise NotStatic(f"raises re.error: {ex}") from ex
+            raise NotStatic("re.compile with flags")
         if isinstance(f, ast.Attribute):
             recv = self.eval(f.value)
             args = self._elts(e.args)
+            if type(recv).__name__ == "Pattern" and f.attr in ("split", "match", "fullmatch", "search", "sub", "findall") and all(isinstance(a, (str, int)) for a in args):
+                r = getattr(recv, f.attr)(*args)
+                return bool(r) if type(r).__name__ == "Match" else r
             if isinstance(recv, bytes) and f.attr == "decode":
                 try:
                     return recv.decode(*args)
@@ -326,6 +339,12 @@ class Evaluator:
             if isinstance(f.value, ast.Name) and f.value.id == "dict" and f.attr == "fromkeys":
                 return dict.fromkeys(*args)
             raise NotStatic(f"method {f.attr}")
+        if isinstance(f, ast.Name) and f.id == "isinstance" and "isinstance" not in self.env and len(e.args) == 2:
+            classes = {"str": str, "int": int, "float": float, "bool": bool, "list": list, "tuple": tuple, "dict": dict, "bytes": bytes}
+            names = [x.id for x in ([e.args[1]] if isinstance(e.args[1], ast.Name) else getattr(e.args[1], "elts", [])) if isinstance(x, ast.Name)]
+            if names and all(nm in classes for nm in names):
+                return isinstance(self.eval(e.args[0]), tuple(classes[nm] for nm in names))
+            raise NotStatic("isinstance with a non-builtin class")
         if isinstance(f, ast.Name):
             if f.id in self.env and callable(self.env[f.id]):
                 return self.env[f.id](*self._elts(e.args), **{k.arg: self.eval(k.value) for k in e.keywords if k.arg})
